@@ -35,7 +35,7 @@ def generate(tier, seed):
         val = [[[float(1000 * m + 100 * a + i) + rng.dyadic(0, 0.5, 4) for i in range(nw)] for a in range(na)] for m in range(nm)]
         names = ['mod_%02d_%s' % (m, 'x' * rng.choice([0, 3, 10, 19])) for m in range(nm)]
         cases.append(dict(kind=kind, wav=wav, order=order, aps=aps, val=val, names=names, unit=rng.choice(UNITS), with_unc=rng.random() < 0.7,
-                          memmap=rng.random() < 0.5, conv_wav=rng.choice([None, rng.dyadic(0.3, 50, 8)])))
+                          unit_wav=rng.choice(['micron', 'micron', 'cm', 'nm', 'Angstrom']), unit_freq=rng.choice(['Hz', 'Hz', 'GHz', 'THz']), memmap=rng.random() < 0.5, conv_wav=rng.choice([None, rng.dyadic(0.3, 50, 8)])))
     return cases
 
 
@@ -62,9 +62,17 @@ def impl(case):
             s.error = s.flux * 0.125
             p = os.path.join(d, 'a_sed.fits')
             s.write(p)
+            # the units wavelengths / frequencies are asked in (returned values are converted back and snapped to the stored wavelength within 1e-12)
+            uw, uf = u.Unit(case.get('unit_wav', 'micron')), u.Unit(case.get('unit_freq', 'Hz'))
+
+            def snap(x):
+                best = min(case['wav'], key=lambda w: abs(w - x))
+                return best if abs(best - x) <= 1e-12 * best else x
             for o in ('nu', 'wav'):
-                r = SED.read(p, unit_flux=unit, order=o)
-                out[o] = dict(name=r.name, wav=[float(x) for x in r.wav.to(u.micron).value], nu=[float(x) for x in r.nu.to(u.Hz).value],
+                r = SED.read(p, unit_wav=uw, unit_freq=uf, unit_flux=unit, order=o)
+                if r.wav.unit != uw or r.nu.unit != uf:
+                    out['unit_error'] = 'asked for %s / %s, got %s / %s' % (uw, uf, r.wav.unit, r.nu.unit)
+                out[o] = dict(name=r.name, wav=[snap(float(x)) for x in r.wav.to(u.micron).value], nu=[float(x) for x in r.nu.to(u.Hz).value],
                               flux=[[float(x) for x in row] for row in r.flux.to(unit).value], error=[[float(x) for x in row] for row in r.error.to(unit).value],
                               apertures=None if r.apertures is None else [float(x) for x in r.apertures.to(u.au).value], distance_kpc=float(r.distance.to(u.kpc).value))
             # the same file read in another unit family, both orders: must be mirror images of each other
@@ -129,6 +137,8 @@ def judge(case, im, mo):
     if any(isinstance(m, tuple) for m in mo):
         return dict(disagree=['driver %r' % ([m for m in mo if isinstance(m, tuple)][:1],)], fail=[], nontrivial=False)
     disagree, fail = [], []
+    if im.get('unit_error'):
+        fail.append('units: SED.read ' + im['unit_error'])
     wav_in = _ord(case['wav'], case['order'])
     nw = len(wav_in)
     if case['kind'] == 'conv':
